@@ -88,7 +88,21 @@ def _run_case(case, ctx):
     if case["kind"] == "own":
         mediamon.set_form("own")
         c = CassetteFile()
-        c.add_files([G.to_coco(s) for s in specs])          # M7 fires per add_file
+        nonempty_so_far = True
+        for j, s in enumerate(specs):
+            c.add_file(G.to_coco(s))                        # M7 fires per add_file
+            # the same object is listed between additions (list, add, list ...)
+            if nonempty_so_far and len(s["data"]) > 0:
+                try:
+                    mid = c.list_files()
+                    ctx.mon("reader.list_files.same-object")
+                    if not compare_listing(ctx, "C06", "tape-roundtrip", "own.same-object", mid, specs[:j + 1], wit):
+                        return
+                except Exception as e:
+                    ctx.violation("tape-roundtrip", "own.same-object", "READER-RAISED:%s" % type(e).__name__, dict(wit, error=str(e)[:100]), prop="C06")
+                    return
+            else:
+                nonempty_so_far = False
         written = bytes(c.get_buffer())
         # whole image strict parse (C14) in addition to the per-call regions
         try:
